@@ -76,6 +76,9 @@ public:
         write_external32 = std::move(write32);
     }
 
+#ifdef TEAKRA_VERIF
+    friend struct ::TeakraVerifAccess;
+#endif
 private:
     u16 busy_flag = 0;
     struct Channel {
